@@ -56,9 +56,45 @@ def exec_for(ex, st):
         return invariant_for(ex, st, Range(0, n), spec, ordinal, elem_fn=elem)
     if not isinstance(it, Range):
         raise Unsupported("iteration over %r @%d" % (it, st.lineno))
+    if getattr(ex, "fixed_mode", False):
+        # bounded mode (sizes fixed): loop bounds that the path condition pins to a single value are unrolled
+        lo, hi = concretize_int(ex, it.lo), concretize_int(ex, it.hi)
+        if lo is not None and hi is not None:
+            broke = False
+            for x in range(lo, hi):
+                ex.assign(st.target, x)
+                try:
+                    ex.exec_block(st.body)
+                except BreakSignal:
+                    broke = True
+                    break
+                except ContinueSignal:
+                    continue
+            if not broke:
+                ex.exec_block(st.orelse)
+            return
     if spec is not None:
         return invariant_for(ex, st, it, spec, ordinal)
     return auto_nest(ex, st, it, ordinal)
+
+
+def concretize_int(ex, t):
+    """the unique integer value of t under the path condition, or None"""
+    if not is_z3(t):
+        return t if isinstance(t, int) else None
+    sol = z3.Solver()
+    sol.set("timeout", 2000)
+    for h in ex.pc:
+        sol.add(h)
+    if sol.check() != z3.sat:
+        return None
+    v = sol.model().eval(t, model_completion=True)
+    if not z3.is_int_value(v):
+        return None
+    sol.add(t != v)
+    if sol.check() != z3.unsat:
+        return None
+    return v.as_long()
 
 
 def _concrete_items(ex, it, line):
@@ -528,15 +564,16 @@ def modified_targets(ex, stmts, extra=()):
                 target(n.target)
     for e in extra:
         tree = ast.parse(e, mode="eval").body
-        target(tree)
-        if isinstance(tree, ast.Name):
-            v = base_value(tree)
-            if isinstance(v, SymArr):
-                while v.base is not None:
-                    v = v.base
-                add(("arr", v))
-            elif isinstance(v, SymList):
-                add(("lst", v))
+        v = base_value(tree) if isinstance(tree, (ast.Name, ast.Attribute)) else None
+        if isinstance(v, SymArr):
+            # a name / attribute denoting an array: its *contents* may change, the binding does not
+            while v.base is not None:
+                v = v.base
+            add(("arr", v))
+        elif isinstance(v, SymList):
+            add(("lst", v))
+        else:
+            target(tree)
     return out
 
 
